@@ -49,7 +49,7 @@ class TemplateError(Exception):
     pass
 
 
-ALLOWED_DERIVES = {"Clone", "Copy", "PartialEq", "Eq", "PartialOrd", "Ord", "Debug", "Hash", "Default"}
+ALLOWED_DERIVES = {"Clone", "Copy", "PartialEq", "Eq", "PartialOrd", "Ord", "Hash", "Default"}
 
 _src_cache = {}
 
@@ -162,11 +162,27 @@ def find_item(path, container, item):
     if kind in ("struct", "enum", "union"):
         # include attributes/doc lines directly above
         k = ls
-        while True:
+        while k > 0:
             p = src.rfind("\n", 0, k - 1)
-            prev = src[p + 1:k - 1] if k > 0 else ""
-            if k > 0 and re.match(r"\s*(#\[|///|//)", prev):
+            prev = src[p + 1:k - 1]
+            if re.match(r"\s*(#\[|///|//)", prev):
                 k = p + 1
+            elif prev.strip().endswith(")]"):
+                # tail of a multi-line attribute: walk up to its `#[`
+                kk = p + 1
+                found = False
+                while kk > 0:
+                    pp = src.rfind("\n", 0, kk - 1)
+                    ln = src[pp + 1:kk - 1]
+                    kk = pp + 1
+                    if re.match(r"\s*#\[", ln):
+                        found = True
+                        break
+                    if ln.strip() == "" or ln.strip().endswith(";") or ln.strip().endswith("}"):
+                        break
+                if not found:
+                    break
+                k = kk
             else:
                 break
         attr_start = k
@@ -372,7 +388,10 @@ def apply_rewrites(text, rewrites, counts, log):
     for rule, rx, repl in rewrites:
         new, n = re.subn(rx, repl, text, flags=re.S)
         if n == 0:
+            if rule.endswith("?"):
+                continue
             raise AnchorLost("rewrite %s /%s/ did not apply" % (rule, rx))
+        rule = rule.rstrip("?")
         counts[rule] = counts.get(rule, 0) + n
         log.append(dict(rule=rule, regex=rx, replacement=repl, applications=n,
                         before_sha=hashlib.sha256(text.encode()).hexdigest()[:16],
@@ -426,7 +445,7 @@ def parse_attrs(s):
     return out
 
 
-def parse_template(tpl_text):
+def parse_template(tpl_text, base_dir=None, hashes=None):
     """returns list of ('text', str) | ('block', Block)"""
     parts = []
     cur = None
@@ -465,7 +484,16 @@ def parse_template(tpl_text):
             cur = None
             target = None
         elif cur is None:
-            if word == "unit":
+            if word == "include":
+                parts.append(("text", "\n".join(buf)))
+                buf = []
+                inc = os.path.normpath(os.path.join(base_dir or ".", rest.strip()))
+                with open(inc, encoding="utf-8") as fh:
+                    inc_text = fh.read()
+                if hashes is not None:
+                    hashes.append((os.path.basename(inc), hashlib.sha256(inc_text.encode()).hexdigest()[:16]))
+                parts.extend(parse_template(inc_text, os.path.dirname(inc), hashes))
+            elif word == "unit":
                 parts.append(("unit", parse_attrs(rest)))
             elif word == "lemma":
                 parts.append(("lemma", parse_attrs(rest)))
@@ -649,7 +677,8 @@ def render(tpl_path, with_canaries=True):
     """returns (verus_source, records, meta). records carry the generated-file line spans."""
     with open(tpl_path, encoding="utf-8") as f:
         tpl = f.read()
-    parts = parse_template(tpl)
+    inc_hashes = []
+    parts = parse_template(tpl, os.path.dirname(os.path.abspath(tpl_path)), inc_hashes)
     out_lines = []
     records = []
     meta = {}
@@ -679,6 +708,7 @@ def render(tpl_path, with_canaries=True):
     src = "\n".join(out_lines)
     meta["canaries"] = canaries
     meta["template_sha256"] = hashlib.sha256(tpl.encode()).hexdigest()
+    meta["includes"] = inc_hashes
     return src, records, meta
 
 
